@@ -9,15 +9,19 @@ One micro-step = one critical section of `nsqd/channel.go` on `inFlightMessages`
                                (TOUCH continues:  | mapPush `touchMapPush` | heapPush `heapPush`)
   delivery                    =  Attempts++, stamp owner/deadline, mapPush           `delMapPush`
                                |  heapPush (addToInFlightPQ)                          `heapPush`
-  timeout scan                =  heapPop (PeekAndShift)                               `scanHeapPop`
-                               |  mapPop (popInFlightMessage(msg.clientID, msg.ID))    `scanMapPop`
+  timeout scan (fix F16)      =  heapPop AND mapPop in ONE critical section           `scanPop`
+                                  (PeekAndShift; `delete` iff the map still holds that object,
+                                   else the stale heap entry is skipped and the scan exits)
+                               |  timeoutCount++, TimedOutMessage, `c.put(msg)`         `scanPut`
 
 A schedule is any list of micro-steps: between two steps of one operation any steps of other
 operations may run. The goroutine that is between two critical sections is a *pending
 continuation* (`Pend`). The heap is a multiset of ids (a stale entry — an object pushed after it
 left the map — is possible and harmless since `removeFromInFlightPQ` checks `pq[index] == msg`
-(fix 80a0e5f) and the scan re-checks the map). Deadlines are abstracted: the scan may pop any heap
-member (an over-approximation of `pri <= t`). Events are recorded at the map steps (the
+(fix 80a0e5f) and the scan checks the map in the same critical section in which it pops the heap
+(fix F16; before it the two were separate sections and a REQ plus a redelivery in between made the
+scan time out the fresh delivery). Deadlines are abstracted: the scan may pop any heap member (an
+over-approximation of `pri <= t`); message objects are identified by their id. Events are recorded at the map steps (the
 linearisation points), with the event type of the atomic model so that its history lemmas apply.
 Core Lean only.
 -/
@@ -38,7 +42,7 @@ inductive Pend where
   | touchMap (k id : Nat)
   /-- delivery or TOUCH: in the map, heap insertion pending -/
   | push (id : Nat)
-  /-- timeout scan: popped from the heap, map removal pending -/
+  /-- timeout scan: popped from heap and map (the timeout is decided), `c.put` pending -/
   | scan (id : Nat)
 deriving DecidableEq, Repr
 
@@ -64,14 +68,14 @@ inductive Op where
   | ansMapPop (k id : Nat) (a : Ans)
   | ansFinish (k id : Nat) (a : Ans)
   | touchMapPush (k id : Nat)
-  | scanHeapPop (id : Nat)
-  | scanMapPop (id : Nat)
+  | scanPop (id : Nat)
+  | scanPut (id : Nat)
   | deferDue (id : Nat)
 deriving DecidableEq, Repr
 
 inductive Res where
   | ok
-  | fail      -- E_FIN_FAILED / E_REQ_FAILED / E_TOUCH_FAILED, or the scan's `goto exit`
+  | fail      -- E_FIN_FAILED / E_REQ_FAILED / E_TOUCH_FAILED, or the scan skipping a stale heap entry
   | reject    -- the step is not enabled in this state
 deriving DecidableEq, Repr
 
@@ -136,17 +140,17 @@ def step (s : MS) : Op → MS × Res
       ({ s with map := id :: s.map,
                 pend := Pend.push id :: s.pend.erase (Pend.touchMap k id) }, .ok)
     else (s, .reject)
-  | .scanHeapPop id =>
+  | .scanPop id =>
+    -- one critical section: PeekAndShift, then `delete(inFlightMessages, id)` iff the map holds the object
     if id ∈ s.heap then
-      ({ s with heap := s.heap.erase id, pend := Pend.scan id :: s.pend }, .ok)
-    else (s, .reject)
-  | .scanMapPop id =>
-    -- popInFlightMessage(msg.clientID, msg.ID) with the object's *current* owner field
-    if Pend.scan id ∈ s.pend then
       if id ∈ s.map then
-        ({ s with map := s.map.erase id, pend := s.pend.erase (Pend.scan id),
-                  queue := id :: s.queue, hist := Ev.timeout id (getA s.owner id) :: s.hist }, .ok)
-      else ({ s with pend := s.pend.erase (Pend.scan id) }, .fail)   -- `goto exit`: somebody else got it
+        ({ s with heap := s.heap.erase id, map := s.map.erase id, pend := Pend.scan id :: s.pend,
+                  hist := Ev.timeout id (getA s.owner id) :: s.hist }, .ok)
+      else ({ s with heap := s.heap.erase id }, .fail)   -- stale entry: somebody else got the message
+    else (s, .reject)
+  | .scanPut id =>
+    if Pend.scan id ∈ s.pend then
+      ({ s with pend := s.pend.erase (Pend.scan id), queue := id :: s.queue }, .ok)
     else (s, .reject)
   | .deferDue id =>
     if id ∈ s.deferred then
@@ -161,7 +165,7 @@ def run (s : MS) : List Op → MS
 /-- a step that tries to take `id` out of the in-flight map: an answer of any connection, or the scan -/
 def isPopOf (id : Nat) : Op → Bool
   | .ansMapPop _ i _ => i == id
-  | .scanMapPop i => i == id
+  | .scanPop i => i == id
   | _ => false
 
 /-- a step that puts `id` (back) into the in-flight map: a delivery, or the second half of a TOUCH -/
